@@ -29,6 +29,7 @@ from typing import Dict, List, Set
 
 from engine.src import FunctionInfo, own_nodes, own_nodes_incl_lambda, src_of, AnalysisError
 from engine.util import const_value
+from .common import resolve_call
 from .sem import guarded_values, defs_texts, expander, ctext, want, xt, calls, paths, paths_deep, block_paths, stmt_of, complement_norm, RAISE
 
 RULES = {
@@ -181,18 +182,33 @@ def check_b(ck, repo):
             ok = len(par.body) == 1 and isinstance(par.body[0], ast.Expr) and isinstance(par.body[0].value, ast.Yield) and src_of(par.body[0].value.value) == src_of(par.target)
             ck.verdict(ok, "C16.b", en, par, "every item of the child enumeration is yielded once, unchanged", "items of the child enumeration are not re-yielded exactly once")
     # container kinds: containers iterated here vs in _pipeline_info
-    def kinds_of(fn, attrmap):
+    def kinds_of(fn, attrmap, owner=None, depth=0):
         out = {}
         for s in own_nodes(fn):
             if isinstance(s, ast.If) and isinstance(s.test, ast.Call) and src_of(s.test.func) == "isinstance" and src_of(s.test.args[0]) == "pipe":
-                k = src_of(s.test.args[1])
+                karg = s.test.args[1]
+                ks = [src_of(e) for e in karg.elts] if isinstance(karg, ast.Tuple) else [src_of(karg)]
                 loops = [l for l in ast.walk(ast.Module(body=s.body, type_ignores=[])) if isinstance(l, ast.For)]
-                its = [src_of(l.iter) for l in loops]
-                out[k] = its
+                for k in ks:
+                    its = [src_of(l.iter) for l in loops]
+                    # children produced by a generator helper that dispatches on the container kind itself
+                    for l in loops:
+                        it = l.iter
+                        wrapped = isinstance(it, ast.Call) and src_of(it.func) == "enumerate" and it.args
+                        inner = it.args[0] if wrapped else it
+                        if depth < 2 and owner is not None and isinstance(inner, ast.Call) and [src_of(a) for a in inner.args] == ["pipe"]:
+                            h = resolve_call(repo, owner, inner)
+                            if h is not None and any(isinstance(y, (ast.Yield, ast.YieldFrom)) for y in own_nodes(h.node)):
+                                sub = kinds_of(h.node, None, h, depth + 1).get(k, [])
+                                hl = [x for x in own_nodes(h.node) if isinstance(x, ast.For) and src_of(x.iter) in sub]
+                                one_each = all(len([y for y in ast.walk(x) if isinstance(y, ast.Yield)]) == 1 and len(x.body) == 1 and isinstance(x.body[0], ast.Expr) for x in hl)
+                                if one_each:
+                                    its += [f"enumerate({x})" if wrapped else x for x in sub]
+                    out[k] = out.get(k, []) + its
         return out
-    ke = kinds_of(en.node, None)
+    ke = kinds_of(en.node, None, en)
     pi = repo.func(VZ, "_pipeline_info")
-    kp = kinds_of(pi.node, None)
+    kp = kinds_of(pi.node, None, pi)
     want_e = {"Pipeline": "enumerate(pipe.steps)", "ColumnTransformer": "enumerate(pipe.transformers)", "FeatureUnion": "enumerate(pipe.transformer_list)"}
     want_p = {"Pipeline": "pipe.steps", "ColumnTransformer": "pipe.transformers", "FeatureUnion": "pipe.transformer_list"}
     for k in KINDS:
